@@ -1,9 +1,11 @@
 (* Corr/C10.v — evaluators of the C10 correspondence run.  Per case a code:
    0 = the implementation's output satisfies the specification (Spec/BundleSpec.v) and agrees with the model,
    1 = the implementation's output violates the specification on this input,
-   2 = specification satisfied, but model (Model/BundleFlat.v) and implementation differ (tie broken). *)
+   2 = specification satisfied, but model (Model/BundleFlat.v) and implementation differ (tie broken),
+   3 = the harness's own reading of a definition's FINAL members (after a construction history with re-used names) differs
+       from the one Model/C10Build.v computes from the history (chkh, at the end of this file). *)
 From Coq Require Import String Ascii.
-Require Import Hdl21.Base.PyInt Hdl21.Spec.BundleSpec Hdl21.Model.BundleFlat Hdl21.Corr.C03.
+Require Import Hdl21.Base.PyInt Hdl21.Spec.BundleSpec Hdl21.Model.BundleFlat Hdl21.Model.C10Build Hdl21.Corr.C03.
 Require Import Hdl21Gen.C10Tables.
 Open Scope string_scope.
 Open Scope list_scope.
@@ -254,3 +256,14 @@ Definition L (n : string) (w : Z) (pt : bool) (d : dir) (s de : option role) : l
   {| lname := n; lwidth := w; lport := pt; ldir := d; lsrc := s; ldest := de |}.
 Definition O3 (p : list (string * Z * dir)) (s : list (string * Z)) (pr : option (list (path * string))) : obs :=
   {| o_ports := p; o_sigs := s; o_probes := pr |}.
+
+(* ---------- definitions with a construction history (strengthening round) ----------
+   Every definition of the case that was built by a written history comes as (history tree, final tree as the harness read it).
+   The trees of the case proper (child, parent instances) are printed from the harness's final members; here Coq recomputes
+   the final members from the history with the model of bundle.py:_add / @h.bundle (Model/C10Build.v: resolve) and demands
+   that the two agree (3 otherwise) before the flattening check `chk` is applied to them. *)
+Definition hcase := (list (htree * btree) * case)%type.
+
+Definition chkh (c : hcase) : Z :=
+  let '(hs, c') := c in
+  if forallb (fun x => btree_eqb (resolve (fst x)) (snd x)) hs then chk c' else 3.
